@@ -97,6 +97,8 @@ class PropBase:
 
     def pre_op(self, sess, i: int, step: dict):
         """Runs before an operation step (generic or own): fault injection tied to the step."""
+        if step.get("scan") and step["op"] in ("build", "marshal", "unmarshal", "roundtrip"):
+            sess.scan_step(step)
 
     def comparable(self, sess, i, step) -> bool:
         """May this step be compared between replicas in different environments?  Not if its
